@@ -44,7 +44,7 @@ MonInit == [cfg |-> [confirm_to |-> 5000, any_master |-> FALSE, self_addr |-> FA
             ser |-> NoSer,
             lastReq |-> [bid |-> -1, seq |-> -1]]
 
-V(m, reason, l, ctx) == [m EXCEPT !.viol = Append(@, Viol("C11", reason, l, m.sc, ctx))]
+V(m, reason, l, ctx) == [m EXCEPT !.viol = IF Len(@) >= 300 THEN @ ELSE Append(@, Viol("C11", reason, l, m.sc, ctx))]
 
 InitDb(cfg) == [i \in 1..Len(cfg.points) |-> [ty |-> cfg.points[i].ty, ix |-> cfg.points[i].ix,
                                               val |-> cfg.points[i].init, fl |-> 1]]
